@@ -35,7 +35,7 @@ def cases(tier, rng):
     # every kind of endpoint that is configured for TLS from the first octet answers a TLS hello and nothing else (started from its
     # configuration text and probed on the wire), whatever the socket family ...
     k = 0
-    for scheme in ("tcp+tls", "unix+tls", "https", "wss", "http+tls", "ws+tls"):
+    for scheme in ("tcp+tls", "unix+tls", "https", "wss", "http+tls", "ws+tls", "dns+tcp+tls"):
         k += 1
         text = scheme + (":///tmp/verif-c04-%d.sock" % k if scheme.startswith("unix") else "://127.0.0.1:0")
         line = "c18 server json #%s 1" % text.encode("latin-1").hex()
